@@ -141,6 +141,8 @@ def x_pause_busy_time_priority(spec):
     function that reads busy_time chooses differently after a pause and the records change.  Excluded (C16 only) by
     replacing that server-priority function."""
     hit = False
+    if not any(n.get("prio_preempt") or n["servers"].get("preemption") for n in spec["nodes"]):
+        return False        # since F16a/b were repaired only interrupted services (F33) make busy_time depend on pauses
     for nd in spec["nodes"]:
         if nd.get("server_priority") == "busy_time":
             nd["server_priority"] = "id_desc"
@@ -277,6 +279,11 @@ def x_cc_preempt_after_restart(spec):
 def p_cc_preempt_after_restart(case, v):
     import copy
     return x_cc_preempt_after_restart(copy.deepcopy(case)) if isinstance(case, dict) and "nodes" in case else False
+
+
+def p_has_preemption(case, v):
+    """F33 applies only to networks with some kind of pre-emption (priority, schedule or slot)."""
+    return any(nd.get("prio_preempt") or nd["servers"].get("preemption") for nd in case.get("nodes", []))
 
 
 EXCLUSIONS = {
